@@ -178,6 +178,7 @@ class Item:
         self.ret = None
         self.spec = []
         self.loops = {}
+        self.loops_at = []
         self.inserts = []  # (mode, n, anchor, lines, sidecar_line)
         self.subs = []     # (tag, count, kind, from, to)
         self.sigsubs = []
@@ -233,6 +234,12 @@ def parse_sidecar(path):
             elif key == 'loop':
                 n = int(rest)
                 cur = item.loops.setdefault(n, [])
+            elif key == 'loop-at':
+                m = re.match(_BT + r'\s*$', rest)
+                if not m:
+                    raise SpecError('%s:%d: bad loop-at' % (path, ln))
+                cur = []
+                item.loops_at.append((_unq(m.group(1)), cur, ln))
             elif key in ('before', 'after'):
                 m = re.match(r'(\d+)\s+' + _BT + r'\s*$', rest)
                 if not m:
@@ -575,6 +582,14 @@ def build(repo, sidecar_path, extra_spec=None):
                 if n < 1 or n > len(lps):
                     raise ExtractionLost('%s: loop %d not found (function has %d loops)' % (where, n, len(lps)))
                 inserts.append((lps[n - 1][1], '\n' + MARK_OPEN + '\n' + '\n'.join(l for l, _ in lines) + '\n' + MARK_CLOSE + '\n'))
+            for (anchor, lines, ln) in item.loops_at:
+                # the first loop whose keyword is at or after the anchor (robust against reordering of
+                # match arms, unlike loop ordinals)
+                p0, _p1 = _nth(body, anchor, 1, where)
+                cand = [lp for lp in lps if lp[0] >= p0]
+                if not cand:
+                    raise ExtractionLost('%s: no loop after anchor `%s`' % (where, anchor))
+                inserts.append((cand[0][1], '\n' + MARK_OPEN + '\n' + '\n'.join(l for l, _ in lines) + '\n' + MARK_CLOSE + '\n'))
             for (mode, n, anchor, lines, ln) in item.inserts:
                 p, pend = _nth(body, anchor, n, where)
                 if mode == 'after':
